@@ -51,7 +51,7 @@ package definition
 //@   invariant true
 
 //@ func readFlow
-//@   havocs MigrateToLatest, Unmarshal, UnmarshalAndValidate, IsVersionSupported
+//@   havocs MigrateToLatest, IsVersionSupported
 //@   assigns computed
 //@   ensures [error_means_no_flow] !isnil(result1) ==> isnil(result0)
 //@ loop 1
